@@ -168,7 +168,8 @@ fn rand_cache_op(ctx: &mut Ctx, keys: &[(i64, usize, usize)], allow_admin: bool)
         0..=7 => format!("b {} {} {}", tb, n, vec_to_wire(&rand_vec(ctx, d, vk))),
         8 => { let v: Vec<i8> = (0..d).map(|_| ctx.range(-128, 127) as i8).collect(); format!("b8 {} {} {}", tb, n, v8_to_wire(&v)) }
         9 => format!("bd {} {} {}", tb, n, vec_to_wire(&rand_vec(ctx, d, vk))),
-        10 => format!("mp {} {} {} {}", tb, n, ctx.below(12), vec_to_wire(&rand_vec(ctx, d, vk))),
+        // finite vectors only: with infinities the boundary distances can be NaN (see c26.ranked)
+        10 => { let k = if vk == 6 { 1 } else { vk }; format!("mp {} {} {} {}", tb, n, ctx.below(12), vec_to_wire(&rand_vec(ctx, d, k))) }
         11 => format!("pw {} {} {}", tb, n, d),
         12 => format!("bs {} {} {}", 1 + ctx.below(4), n, vec_to_wire(&rand_vec(ctx, d, vk))),
         13 => "st".to_string(),
